@@ -78,6 +78,10 @@ func suiteNode(c *Ctx) {
 	c.Class("scenario/two-block-proof")
 	scenarioLateCommitAfterLaterProposal(c)
 	c.Class("scenario/late-commit-after-later-proposal")
+	scenarioNewViewValidatedDuringOwnTimeout(c)
+	c.Class("scenario/newview-validated-during-own-timeout")
+	scenarioVoteWithBlockWithoutProof(c)
+	c.Class("scenario/vote-with-block-without-proof")
 	// adversarial scenarios: Byzantine members of total weight <= f, all strategies
 	nadv := 60
 	if c.Thorough() {
@@ -612,5 +616,56 @@ func scenarioLateCommitAfterLaterProposal(c *Ctx) *Net {
 		}
 	}
 	a.inject(late, a.mkC(memberId(1), protocol.LEAN_HELIX_COMMIT, inst, 1, 0, hash), "byz-commit")
+	return net
+}
+
+
+// newview-validated-during-own-timeout: three members time out and elect the leader of view 1; its
+// NEW_VIEW (fresh block) reaches the fourth member, still in view 0, and while that member's consumer
+// validates the block the main loop handles the member's own election trigger for view 0
+// (CancelOlderThan (h, 1)): the validation runs for view 1, so its context must stay live and the
+// member must adopt the NEW_VIEW.
+func scenarioNewViewValidatedDuringOwnTimeout(c *Ctx) *Net {
+	net := NewNet(c, NetOpts{N: 4, Weights: []uint64{1, 1, 1, 1}, Inst: 100}, "newview-validated-during-own-timeout n=4")
+	net.start()
+	typ := func(f *Flight) string { return fmt.Sprintf("%T", interfaces.ToConsensusMessage(f.Raw)) }
+	net.pool = nil // the proposal of view 0 reaches nobody
+	slow := net.order[3]
+	for _, n := range net.order[:3] {
+		net.timeout(n, false)
+	}
+	for len(net.pool) > 0 { // votes reach the leader of view 1, which is elected and sends its NEW_VIEW
+		f := net.pool[0]
+		net.pool = net.pool[1:]
+		if typ(f) == "*interfaces.ViewChangeMessage" {
+			net.deliverFlight(f)
+		} else if typ(f) == "*interfaces.NewViewMessage" && string(f.To) == string(slow.Id) {
+			slow.CancelDuring = 1
+			net.deliverFlight(f)
+			slow.CancelDuring = 0
+		}
+	}
+	return net
+}
+
+// vote-with-block-without-proof: a Byzantine member votes for view 1 with a block attached but no
+// prepared proof; the correct leader of view 1 must not count that vote (and so must not re-propose
+// that block); with the correct members' votes it is elected and requests a fresh proposal.
+func scenarioVoteWithBlockWithoutProof(c *Ctx) *Net {
+	net := NewNet(c, NetOpts{N: 4, Weights: []uint64{1, 1, 1, 1}, ByzIdx: []int{3}, Inst: 100}, "vote-with-block-without-proof n=4 byz=[3]")
+	net.start()
+	a := net.adv
+	net.pool = nil
+	if n, ok := net.nodes[string(memberId(1))]; ok {
+		a.inject(n, a.mkVC(a.vcContent(memberId(3), protocol.LEAN_HELIX_VIEW_CHANGE, 100, 1, 1, nil), a.newBlock(1, false)), "vc-block-without-proof")
+	}
+	for _, n := range net.order {
+		net.timeout(n, false)
+	}
+	for k := 0; len(net.pool) > 0 && k < 200; k++ {
+		f := net.pool[0]
+		net.pool = net.pool[1:]
+		net.deliverFlight(f)
+	}
 	return net
 }
